@@ -47,7 +47,7 @@ function plan (seed, run, tier) {
 function jobs (plan) {
   if (plan.mode === 'h5') {
     const js = [{ cfg: cfgOf(plan.prefix || 'sim'), prng_seed: 1, file: FILE, code: plan.text }]
-    if (plan.preJob) js.unshift({ cfg: cfgOf('other'), prng_seed: 1, file: '/sim/c06/pre.js', code: 'function pre(a, b) { const __datadog_other_9 = 1; return a + b; }\n' })
+    if (plan.preJob) js.unshift({ cfg: cfgOf('other'), prng_seed: 1, file: '/sim/c06/pre.js', code: 'function pre(a, b) { const x = a() + b(); return `${a()}${b()}` + x.trim(); }\n' })
     return js
   }
   const r = render(plan.prog)
